@@ -22,6 +22,69 @@ _CMP = {'Lt': lambda a, b: a < b, 'Le': lambda a, b: a <= b, 'Gt': lambda a, b: 
         'Eq': lambda a, b: a == b, 'Ne': lambda a, b: a != b}
 
 
+INF = float('inf')
+NAN = float('nan')
+
+
+def fexp(a):
+    try:
+        return math.exp(a)
+    except OverflowError:
+        return INF
+
+
+def flog(a):
+    if a != a:
+        return NAN
+    if a == 0:
+        return -INF
+    if a < 0:
+        return NAN
+    return math.log(a)
+
+
+def fdiv(a, b):
+    try:
+        return a / b
+    except ZeroDivisionError:
+        if a != a or a == 0:
+            return NAN
+        neg = (a < 0) != (math.copysign(1.0, b) < 0)
+        return -INF if neg else INF
+    except OverflowError:
+        return INF if (a > 0) == (b > 0) else -INF
+
+
+def fpow(a, b):
+    try:
+        r = math.pow(a, b)
+        return r
+    except OverflowError:
+        return INF if (a > 0 or int(b) % 2 == 0) else -INF
+    except ValueError:
+        if a == 0 and b < 0:
+            return INF
+        return NAN
+    except ZeroDivisionError:
+        return INF
+
+
+def fmul(a, b):
+    try:
+        return a * b
+    except OverflowError:
+        return INF if (a > 0) == (b > 0) else -INF
+
+
+def fgamma(a):
+    try:
+        return math.gamma(a)
+    except OverflowError:
+        return INF
+    except ValueError:
+        return NAN
+
+
 def ev(e, params, x):
     """evaluate an elem expression; params: field index -> value; x: value of ('sym','X')"""
     k = e[0]
@@ -58,8 +121,9 @@ def ev(e, params, x):
         try:
             if op in ('Add', 'IAdd'): return a + b
             if op in ('Sub', 'ISub'): return a - b
-            if op in ('Mul', 'IMul'): return a * b
-            if op == 'Div': return a / b
+            if op == 'Mul': return fmul(a, b)
+            if op == 'IMul': return a * b
+            if op == 'Div': return fdiv(a, b)
             if op == 'IDiv': return int(a) // int(b)
             if op in ('Rem', 'IRem'): return math.fmod(a, b) if op == 'Rem' else int(a) % int(b)
         except (ZeroDivisionError, OverflowError, ValueError):
@@ -69,19 +133,19 @@ def ev(e, params, x):
         name = e[1]
         args = [ev(a, params, x) for a in e[2:]]
         try:
-            if name == 'powf': return math.pow(args[0], args[1])
-            if name == 'powi': return math.pow(args[0], int(args[1]))
-            if name == 'exp': return math.exp(args[0])
-            if name == 'ln': return math.log(args[0])
+            if name == 'powf': return fpow(args[0], args[1])
+            if name == 'powi': return fpow(args[0], int(args[1]))
+            if name == 'exp': return fexp(args[0])
+            if name == 'ln': return flog(args[0])
             if name == 'ln_1p': return math.log1p(args[0])
             if name == 'sqrt': return math.sqrt(args[0])
             if name == 'abs': return abs(args[0])
-            if name == 'recip': return 1.0 / args[0]
+            if name == 'recip': return fdiv(1.0, args[0])
             if name == 'floor': return math.floor(args[0])
             if name == 'ceil': return math.ceil(args[0])
             if name == 'max': return max(args)
             if name == 'min': return min(args)
-            if name == 'gamma': return math.gamma(args[0])
+            if name == 'gamma': return fgamma(args[0])
             if name == 'beta': return math.exp(math.lgamma(args[0]) + math.lgamma(args[1]) - math.lgamma(args[0] + args[1]))
             if name == 'erf': return math.erf(args[0])
             if name == 'binom_coeff':
@@ -110,6 +174,8 @@ EULER = 0.5772156649015329
 
 def _binom_pmf(p, k):
     n, q = p['n'], p['p']
+    if k < 0 or k > n:
+        return 0.0
     return math.exp(math.lgamma(n + 1) - math.lgamma(k + 1) - math.lgamma(n - k + 1) + k * math.log(q) + (n - k) * math.log(1 - q))
 
 
@@ -118,70 +184,70 @@ def _binom_pmf(p, k):
 TABLE = {
     'normal::Normal': dict(
         grid=[{'mu': 0.3, 'sigma': 1.7}, {'mu': -2.1, 'sigma': 0.6}],
-        xs=lambda p: [p['mu'] - 1.3 * p['sigma'], p['mu'] + 0.4 * p['sigma'], p['mu'] + 2.2 * p['sigma']],
-        pdf=lambda p, x: math.exp(-0.5 * ((x - p['mu']) / p['sigma']) ** 2) / (p['sigma'] * math.sqrt(2 * math.pi)),
+        xs=lambda p: [p['mu'] - 1.3 * p['sigma'], p['mu'] + 0.4 * p['sigma'], p['mu'] + 2.2 * p['sigma'], p['mu'] - 60 * p['sigma'], p['mu'] + 1e3 * p['sigma']],
+        pdf=lambda p, x: fexp(-0.5 * ((x - p['mu']) / p['sigma']) ** 2) / (p['sigma'] * math.sqrt(2 * math.pi)),
         mean=lambda p: p['mu'], var=lambda p: p['sigma'] ** 2),
     'gamma::Gamma': dict(
-        grid=[{'alpha': 0.7, 'beta': 1.9}, {'alpha': 2.3, 'beta': 0.45}, {'alpha': 5.1, 'beta': 3.2}],
-        xs=lambda p: [0.21, 1.37, 4.9],
-        pdf=lambda p, x: p['beta'] ** p['alpha'] / math.gamma(p['alpha']) * x ** (p['alpha'] - 1) * math.exp(-p['beta'] * x),
+        grid=[{'alpha': 0.7, 'beta': 1.9}, {'alpha': 2.3, 'beta': 0.45}, {'alpha': 5.1, 'beta': 3.2}, {'alpha': 2.0, 'beta': 1e3}],
+        xs=lambda p: [0.21, 1.37, 4.9, -0.8, 2.5e3],
+        pdf=lambda p, x: 0.0 if x < 0 else p['beta'] ** p['alpha'] / math.gamma(p['alpha']) * x ** (p['alpha'] - 1) * fexp(-p['beta'] * x),
         mean=lambda p: p['alpha'] / p['beta'], var=lambda p: p['alpha'] / p['beta'] ** 2),
     'exponential::Exponential': dict(
-        grid=[{'lambda': 0.37}, {'lambda': 2.9}],
-        xs=lambda p: [0.13, 1.1, 3.7],
-        pdf=lambda p, x: p['lambda'] * math.exp(-p['lambda'] * x),
+        grid=[{'lambda': 0.37}, {'lambda': 2.9}, {'lambda': 1e3}, {'lambda': 1e-3}],
+        xs=lambda p: [0.13, 1.1, 3.7, -0.4, 5e3],
+        pdf=lambda p, x: 0.0 if x < 0 else p['lambda'] * fexp(-p['lambda'] * x),
         mean=lambda p: 1 / p['lambda'], var=lambda p: 1 / p['lambda'] ** 2),
     'uniform::Uniform': dict(
         grid=[{'lower': -1.3, 'upper': 2.9}, {'lower': 0.4, 'upper': 0.95}],
-        xs=lambda p: [p['lower'] + 0.31 * (p['upper'] - p['lower']), p['lower'] + 0.77 * (p['upper'] - p['lower'])],
-        pdf=lambda p, x: 1 / (p['upper'] - p['lower']),
+        xs=lambda p: [p['lower'] + 0.31 * (p['upper'] - p['lower']), p['lower'] + 0.77 * (p['upper'] - p['lower']), p['lower'] - 0.5, p['upper'] + 1e3],
+        pdf=lambda p, x: 1 / (p['upper'] - p['lower']) if p['lower'] <= x <= p['upper'] else 0.0,
         mean=lambda p: (p['lower'] + p['upper']) / 2, var=lambda p: (p['upper'] - p['lower']) ** 2 / 12),
     'pareto::Pareto': dict(
         grid=[{'alpha': 2.7, 'minval': 1.3}, {'alpha': 4.2, 'minval': 0.6}],
-        xs=lambda p: [p['minval'] * 1.1, p['minval'] * 2.3, p['minval'] * 7.9],
-        pdf=lambda p, x: p['alpha'] * p['minval'] ** p['alpha'] / x ** (p['alpha'] + 1),
+        xs=lambda p: [p['minval'] * 1.1, p['minval'] * 2.3, p['minval'] * 7.9, p['minval'] * 0.5, -1.0, p['minval'] * 1e6],
+        pdf=lambda p, x: p['alpha'] * p['minval'] ** p['alpha'] / x ** (p['alpha'] + 1) if x >= p['minval'] else 0.0,
         mean=lambda p: p['alpha'] * p['minval'] / (p['alpha'] - 1),
         var=lambda p: p['minval'] ** 2 * p['alpha'] / ((p['alpha'] - 1) ** 2 * (p['alpha'] - 2))),
     'gumbel::Gumbel': dict(
-        grid=[{'mu': 0.4, 'beta': 1.6}, {'mu': -1.2, 'beta': 0.7}],
-        xs=lambda p: [p['mu'] - 0.9 * p['beta'], p['mu'] + 0.3 * p['beta'], p['mu'] + 2.4 * p['beta']],
-        pdf=lambda p, x: math.exp(-((x - p['mu']) / p['beta'] + math.exp(-(x - p['mu']) / p['beta']))) / p['beta'],
+        grid=[{'mu': 0.4, 'beta': 1.6}, {'mu': -1.2, 'beta': 0.7}, {'mu': 1e3, 'beta': 1.0}],
+        xs=lambda p: [p['mu'] - 0.9 * p['beta'], p['mu'] + 0.3 * p['beta'], p['mu'] + 2.4 * p['beta'], p['mu'] - 1e3 * p['beta'], p['mu'] + 900 * p['beta']],
+        pdf=lambda p, x: fexp(-((x - p['mu']) / p['beta'] + fexp(-(x - p['mu']) / p['beta']))) / p['beta'],
         mean=lambda p: p['mu'] + p['beta'] * EULER, var=lambda p: math.pi ** 2 / 6 * p['beta'] ** 2),
     'beta::Beta': dict(
         grid=[{'alpha': 0.6, 'beta': 2.4}, {'alpha': 3.1, 'beta': 1.7}],
-        xs=lambda p: [0.13, 0.52, 0.91],
-        pdf=lambda p, x: x ** (p['alpha'] - 1) * (1 - x) ** (p['beta'] - 1) * math.gamma(p['alpha'] + p['beta']) / (math.gamma(p['alpha']) * math.gamma(p['beta'])),
+        xs=lambda p: [0.13, 0.52, 0.91, -0.3, 1.7],
+        pdf=lambda p, x: x ** (p['alpha'] - 1) * (1 - x) ** (p['beta'] - 1) * math.gamma(p['alpha'] + p['beta']) / (math.gamma(p['alpha']) * math.gamma(p['beta'])) if 0 <= x <= 1 else 0.0,
         mean=lambda p: p['alpha'] / (p['alpha'] + p['beta']),
         var=lambda p: p['alpha'] * p['beta'] / ((p['alpha'] + p['beta']) ** 2 * (p['alpha'] + p['beta'] + 1))),
     'chi_squared::ChiSquared': dict(
         grid=[{'dof': 1}, {'dof': 4}, {'dof': 7}],
-        xs=lambda p: [0.37, 2.1, 8.3],
-        pdf=lambda p, x: x ** (p['dof'] / 2 - 1) * math.exp(-x / 2) / (2 ** (p['dof'] / 2) * math.gamma(p['dof'] / 2)),
+        xs=lambda p: [0.37, 2.1, 8.3, -1.5, 4e3],
+        pdf=lambda p, x: x ** (p['dof'] / 2 - 1) * fexp(-x / 2) / (2 ** (p['dof'] / 2) * math.gamma(p['dof'] / 2)) if x >= 0 else 0.0,
         mean=lambda p: float(p['dof']), var=lambda p: 2.0 * p['dof']),
     't::T': dict(
         grid=[{'dof': 3.0}, {'dof': 7.5}, {'dof': 2.6}],
-        xs=lambda p: [-1.7, 0.0, 0.6, 2.9],
+        xs=lambda p: [-1.7, 0.0, 0.6, 2.9, -1e6, 3e4],
         pdf=lambda p, x: math.gamma((p['dof'] + 1) / 2) / (math.sqrt(p['dof'] * math.pi) * math.gamma(p['dof'] / 2)) * (1 + x * x / p['dof']) ** (-(p['dof'] + 1) / 2),
         mean=lambda p: 0.0, var=lambda p: p['dof'] / (p['dof'] - 2)),
     'poisson::Poisson': dict(
         grid=[{'lambda': 0.8}, {'lambda': 6.3}, {'lambda': 31.5}, {'lambda': 200.0}, {'lambda': 1000.0}],
-        xs=lambda p: [0, 1, 5, 23, 40] if p['lambda'] < 100 else [int(p['lambda']) - 30, int(p['lambda']), int(p['lambda']) + 45], discrete=True,
-        pdf=lambda p, k: math.exp(k * math.log(p['lambda']) - p['lambda'] - math.lgamma(k + 1)),
+        xs=lambda p: [0, 1, 5, 23, 40, -1, -7] if p['lambda'] < 100 else [int(p['lambda']) - 30, int(p['lambda']), int(p['lambda']) + 45, -2], discrete=True,
+        pdf=lambda p, k: 0.0 if k < 0 else fexp(k * math.log(p['lambda']) - p['lambda'] - math.lgamma(k + 1)),
         mean=lambda p: p['lambda'], var=lambda p: p['lambda']),
     'binomial::Binomial': dict(
         grid=[{'n': 9, 'p': 0.37}, {'n': 40, 'p': 0.81}, {'n': 70, 'p': 0.5}, {'n': 1000, 'p': 0.31}],
-        xs=lambda p: [0, 1, 4, p['n']] if p['n'] <= 40 else [int(p['n'] * p['p']) - 7, int(p['n'] * p['p']), int(p['n'] * p['p']) + 11], discrete=True,
+        xs=lambda p: [0, 1, 4, p['n'], -1, p['n'] + 1, p['n'] + 30] if p['n'] <= 40 else [int(p['n'] * p['p']) - 7, int(p['n'] * p['p']), int(p['n'] * p['p']) + 11, -3, p['n'] + 2], discrete=True,
         pdf=_binom_pmf,
         mean=lambda p: p['n'] * p['p'], var=lambda p: p['n'] * p['p'] * (1 - p['p'])),
     'bernoulli::Bernoulli': dict(
         grid=[{'p': 0.27}, {'p': 0.83}],
-        xs=lambda p: [0, 1], discrete=True,
-        pdf=lambda p, k: p['p'] if k == 1 else 1 - p['p'],
+        xs=lambda p: [0, 1, -1, 2, 9], discrete=True,
+        pdf=lambda p, k: p['p'] if k == 1 else (1 - p['p'] if k == 0 else 0.0),
         mean=lambda p: p['p'], var=lambda p: p['p'] * (1 - p['p'])),
     'discreteuniform::DiscreteUniform': dict(
         grid=[{'lower': -3, 'upper': 4}, {'lower': 2, 'upper': 11}],
-        xs=lambda p: [p['lower'], p['lower'] + 2, p['upper']], discrete=True,
-        pdf=lambda p, k: 1.0 / (p['upper'] - p['lower'] + 1),
+        xs=lambda p: [p['lower'], p['lower'] + 2, p['upper'], p['lower'] - 1, p['upper'] + 1, p['upper'] + 50], discrete=True,
+        pdf=lambda p, k: 1.0 / (p['upper'] - p['lower'] + 1) if p['lower'] <= k <= p['upper'] else 0.0,
         mean=lambda p: (p['lower'] + p['upper']) / 2, var=lambda p: ((p['upper'] - p['lower'] + 1) ** 2 - 1) / 12),
 }
 
